@@ -367,6 +367,9 @@ func (w *W) execLog(task int, op *scen.Op) {
 	l := w.logger(op.L)
 	isPkg := len(op.Entry) > 4 && op.Entry[:4] == "pkg."
 	if l == nil && !isPkg {
+		if !w.quiet {
+			w.emit(scen.Event{T: task, K: "skip", Op: w.curOp[task], Ph: w.curPh[task], S: "no logger"})
+		}
 		return
 	}
 	msg := op.Msg
